@@ -96,6 +96,7 @@ def run(ctx: Context) -> None:
                  ("C01.R5", "the pool hands out only available connections for the request's own origin, or fresh ones"),
                  ("C01.R6", "response byte stream bound to this connection, request and stream id"),
                  ("C01.R7", "HTTP/2 event table keys are consistent"),
+                 ("C01.R9", "per-connection / per-pool mutable state is instance state (no class-level mutable container mutated through self)"),
                  ("C01.R8", "a failed network write/read is visible to the state machines: it aborts the HTTP/1.1 send phase and marks the HTTP/2 connection errored")):
         rep.rule(r, t)
     for tree, N in trees(ctx):
@@ -124,6 +125,7 @@ def run(ctx: Context) -> None:
         _r6(ctx, tree, N, h11c, h2c)
         _r7(ctx, tree, N, h2c)
         _r8(ctx, tree, N, h11c, h2c)
+        _r9(ctx, tree, N)
 
 
 def _atoms(node: ast.AST) -> set[str]:
@@ -437,3 +439,38 @@ def stream_table_census(ctx: Context, rule: str, tree: str, N: Names, h2c) -> No
                "stream table entry removed by the response-close routine" if ok else f"`{ast.unparse(n)[:70]}` removes an open-stream table entry outside _response_closed")
     if not creators:
         rep.ob(rule, fkey(tree, h2c.methods[req], "stream-table-create:none"), False, where(h2c.methods[req]), "no open-stream table entry is ever created")
+
+
+def _r9(ctx: Context, tree: str, N: Names) -> None:
+    """A class-level dict/list shared by all instances would route one connection's events / requests to another."""
+    rep = ctx.rep
+    n = 0
+    for m in N.modules():
+        for c in m.classes.values():
+            init = c.methods.get("__init__")
+            inst = set()
+            if init is not None:
+                for x in own_nodes(init.node):
+                    if isinstance(x, ast.Attribute) and isinstance(x.ctx, ast.Store) and norm(x.value) == "self":
+                        inst.add(x.attr)
+            for name, val in c.class_assigns.items():
+                mutable = isinstance(val, (ast.Dict, ast.List, ast.Set, ast.ListComp, ast.DictComp, ast.SetComp)) or (
+                    isinstance(val, ast.Call) and norm(val.func) in ("dict", "list", "set", "collections.defaultdict", "defaultdict", "collections.deque", "deque"))
+                if not mutable:
+                    continue
+                n += 1
+                mutated = any(isinstance(x, ast.Attribute) and x.attr == name and norm(x.value) == "self" for f in c.methods.values() for x in own_nodes(f.node))
+                ok = not mutated or name in inst
+                rep.ob("C01.R9", fkey(tree, init or next(iter(c.methods.values())), f"class-level:{c.name}.{name}"), ok, f"{m.relpath}:{val.lineno}",
+                       f"class-level container {c.name}.{name} is not used as per-instance state" if ok else
+                       f"{c.name}.{name} is a class-level mutable container used through `self.{name}` and never re-bound in __init__: all instances share it - "
+                       "events / requests of one connection are visible to every other connection")
+    # the anchors themselves must be instance attributes
+    for mod, cn, attrs in (("http2", "AsyncHTTP2Connection", ["_events", "_h2_state"]), ("http11", "AsyncHTTP11Connection", ["_h11_state"]),
+                           ("connection_pool", "AsyncConnectionPool", ["_connections", "_requests"])):
+        c = N.cls(mod, cn)
+        init = c.methods["__init__"]
+        inst = {x.attr for x in own_nodes(init.node) if isinstance(x, ast.Attribute) and isinstance(x.ctx, ast.Store) and norm(x.value) == "self"}
+        for a in attrs:
+            rep.ob("C01.R9", fkey(tree, init, f"instance-state:{a}"), a in inst, where(init), f"{cn}.{a} is created per instance in __init__" if a in inst else
+                   f"{cn}.{a} is not created in __init__: instances share (or lack) it")
